@@ -638,6 +638,14 @@ def timed():
     out.append(line("t_empty_rule", workflow("m", [
         step("s1", acts=[act("a1", timeouts=[timeout(2, [])])]),
     ])))
+    # a timed act under a timed step, and under the timeout steps of a timed act, with the SAME
+    # limit text: the fired-marks are per task, not per limit
+    out.append(line("t_nested_same_on", workflow("m", [
+        step("s1", acts=[act("a1", timeouts=[timeout(2, [tmsg(1)])])], timeouts=[timeout(2, [tmsg(2)])]),
+    ])))
+    out.append(line("t_rule_in_rule", workflow("m", [
+        step("s1", acts=[act("a1", timeouts=[timeout(2, [step("t1", acts=[act("ta1", timeouts=[timeout(2, [tmsg(3)])])])])])]),
+    ])))
     return out
 
 
@@ -902,6 +910,8 @@ FAMILIES = {
     "multi": lambda a: multi(),
     "timedsmall": lambda a: [ln for ln in timed() if ln["name"] not in ("t_branches", "t_two_acts", "t_act_two_rules")],
     # the hand-written models without parallel interrupt branches (cheap with a larger client budget)
+    # the hand-written models WITH parallel interrupt branches (explored with few action kinds)
+    "handpar": lambda a: [ln for ln in hand() if ln["name"] in ("par_branches", "needs")],
     "handseq": lambda a: [ln for ln in hand() if ln["name"] in SEQ_NAMES],
     "core6": lambda a: family_core(6, {"max_steps": 2, "depth": 1, "max_acts": 2}, a.get("limit"), a.get("seed", 0)),
     "core7": lambda a: family_core(7, {"max_steps": 2, "depth": 1, "max_acts": 2}, a.get("limit"), a.get("seed", 0)),
